@@ -26,3 +26,8 @@ class YamlFormat(SingleEvaluator):
 
 class YamlFormatterAdapter(EvaluatorFormatterAdapter):
     Impl = YamlFormat
+
+    def preprocess(self, broker):
+        # YamlFormat takes no render_content argument
+        self.formatter = self.Impl(broker, self.missing, self.show_rules)
+        self.formatter.preprocess()
